@@ -9,6 +9,7 @@ import sys
 _fd = None
 _n = 0
 _crash_at = None
+_fault = None
 _partial = None
 _watch = None
 _busy = False
@@ -53,9 +54,17 @@ def boundary(op, phase, path, **extra):
     rec = {'n': _n, 'op': op, 'phase': phase, 'path': path, 'pid': _pid}
     rec.update(extra)
     if _crash_at is not None and _n == _crash_at:
-        rec['crash'] = True
-        _emit(rec)
-        os._exit(137)
+        if _fault is None:
+            rec['crash'] = True
+            _emit(rec)
+            os._exit(137)
+        if phase == 'before':
+            # I/O error failpoint: the operation about to happen fails with this errno
+            import errno
+            rec['fault'] = _fault
+            _emit(rec)
+            code = getattr(errno, _fault)
+            raise OSError(code, os.strerror(code), path)
     _emit(rec)
 
 
@@ -133,6 +142,14 @@ class _TracedText(io.TextIOWrapper):
                 # model a kill in the middle of writing: first n bytes only
                 super().flush()
                 os.ftruncate(self.fileno(), _partial)
+            if _fault is not None and _crash_at is not None and _n + 1 == _crash_at:
+                # the final flush fails (disc full): part of the data is on disc, close() raises
+                super().flush()
+                os.ftruncate(self.fileno(), os.fstat(self.fileno()).st_size // 2)
+                try:
+                    boundary('close', 'before', self._vf_path)
+                finally:
+                    super().close()
             boundary('close', 'before', self._vf_path)
         finally:
             _busy = False
@@ -178,7 +195,7 @@ _trace_path = None
 
 
 def install(cmd):
-    global _fd, _crash_at, _partial, _watch, _cmd, _pid, _trace_path
+    global _fd, _crash_at, _fault, _partial, _watch, _cmd, _pid, _trace_path
     _cmd = cmd
     _pid = os.getpid()
     env = os.environ
@@ -194,6 +211,7 @@ def install(cmd):
             _emit({'n': None, 'op': 'process', 'pid': _pid, 'cmd': cmd[:300]})
         if crash:
             _crash_at = int(crash)
+            _fault = env.get('BFG9000_VERIF_FAULT') or None
         if env.get('BFG9000_VERIF_PARTIAL'):
             _partial = int(env['BFG9000_VERIF_PARTIAL'])
         w = env.get('BFG9000_VERIF_WATCH')
